@@ -13,6 +13,8 @@
    What `OsString::hash(&mut HashToDigest{..})` feeds was determined through the harness (leg "lp"): the length as
    8 little-endian bytes, then the bytes; no terminator. *)
 From Coq Require Import List NArith Bool.
+From Coq Require String.
+Import String.StringSyntax.
 From Sccache Require Import Base.Sx.
 Import ListNotations.
 Local Open Scope N_scope.
@@ -64,8 +66,13 @@ Definition small (s : bytes) : bool := N.of_nat (length s) <? 72057594037927936.
 
 Definition str_ok (s : bytes) : bool := nonul s && small s.
 
-(* "__TIME__" *)
+(* "__TIME__", "__DATE__", "__TIMESTAMP__" *)
 Definition time_pat : bytes := [95; 95; 84; 73; 77; 69; 95; 95].
+Definition date_pat : bytes := [95; 95; 68; 65; 84; 69; 95; 95].
+Definition stamp_pat : bytes := [95; 95; 84; 73; 77; 69; 83; 84; 65; 77; 80; 95; 95].
+
+(* Digest::delimiter(name) = "\0SCCACHE\0" name "\0" *)
+Definition delimiter (name : bytes) : bytes := [0; 83; 67; 67; 65; 67; 72; 69; 0] ++ name ++ [0].
 
 (* ------------------------------------------------------------------ the translated description of the code *)
 
@@ -90,7 +97,10 @@ Inductive comp :=
 | CEnv (inner : list envc)
 | CPP                   (* m.update(preprocessor_output) *)
 | CPath                 (* encode_path(&mut buf, input_file); m.update(&buf) *)
-| CInputDigest.         (* m.update(digest-of-the-input-file.as_bytes()) *)
+| CInputDigest          (* m.update(digest-of-the-input-file.as_bytes())                     (before f36dfcd) *)
+| CInputDigestT.        (* the same, the digest being include_file_digest(content digest, finder, mtime):
+                           content digest, plus "-" digest(date / SOURCE_DATE_EPOCH / mtime) when the file mentions
+                           __DATE__ or __TIMESTAMP__ *)
 
 Record spec := {
   version : bytes;                    (* c.rs CACHE_VERSION *)
@@ -108,7 +118,7 @@ Definition expected_env : list envc := [EName LP; ELit [61]; EVal LP].
 Definition expected_shape_c : list comp :=
   [CDigest; CPlusplus; CVersion; CLang; CArgs LP; CExtra; CEnv expected_env; CPP].
 Definition expected_shape_p : list comp :=
-  [CDigest; CPlusplus; CFmtVersion; CLang; CArgs LP; CExtra; CEnv expected_env; CPath; CInputDigest].
+  [CDigest; CPlusplus; CFmtVersion; CLang; CArgs LP; CExtra; CEnv expected_env; CPath; CInputDigestT].
 
 (* ------------------------------------------------------------------ requests *)
 
@@ -123,7 +133,11 @@ Record creq := {
   pp : bytes;                         (* preprocessor output *)
   path : bytes;                       (* absolute input path  (pp-level key only) *)
   input : bytes;                      (* contents of the input file (pp-level key only) *)
-  ignore_time : bool                  (* config.ignore_time_macros (pp-level key only) *)
+  ignore_time : bool;                 (* config.ignore_time_macros (pp-level key only) *)
+  (* what the expansions of __DATE__ / __TIMESTAMP__ in the input file depend on (pp-level key only) *)
+  date : N * N * N;                   (* today's local date: year, month, day *)
+  sde : option bytes;                 (* SOURCE_DATE_EPOCH in the server's environment *)
+  mtime : N * N                       (* modification time of the input file: seconds, nanoseconds *)
 }.
 
 Definition allowed (al : list bytes) (k : bytes) : bool := existsb (bytes_eqb k) al.
@@ -156,26 +170,51 @@ Definition env_item (inner : list envc) (kv : bytes * bytes) : bytes :=
                         | ELit b => b
                         end) inner).
 
-Definition comp_piece (sp : spec) (al : list bytes) (r : creq) (c : comp) : piece :=
+(* include_file_digest: which time macros the scan saw (one chunk: "saw" = "contains") *)
+Definition has_date (r : creq) : bool := contains date_pat (input r).
+Definition has_stamp (r : creq) : bool := contains stamp_pat (input r).
+Definition salted (r : creq) : bool := negb (ignore_time r) && (has_date r || has_stamp r).
+
+Definition sde_bytes (r : creq) : bytes := match sde r with Some s => s | None => [] end.
+
+(* what is fed to the inner `time_digest`:
+     date:       delimiter "date", year (i32), month (u32), day (u32) little endian, SOURCE_DATE_EPOCH if set
+     timestamp:  delimiter "timestamp", Timestamp{seconds: i64, nanoseconds: u32} through Hash *)
+Definition time_pre (r : creq) : bytes :=
+  (if has_date r
+   then delimiter [100; 97; 116; 101]
+        ++ le_bytes 4 (fst (fst (date r))) ++ le_bytes 4 (snd (fst (date r))) ++ le_bytes 4 (snd (date r))
+        ++ sde_bytes r
+   else [])
+  ++ (if has_stamp r
+      then delimiter [116; 105; 109; 101; 115; 116; 97; 109; 112]
+           ++ le_bytes 8 (fst (mtime r)) ++ le_bytes 4 (snd (mtime r))
+      else []).
+
+Definition input_digest_pieces (r : creq) : list piece :=
+  if salted r then [Dig (input r); Lit [45]; Dig (time_pre r)] else [Dig (input r)].
+
+Definition comp_pieces (sp : spec) (al : list bytes) (r : creq) (c : comp) : list piece :=
   match c with
-  | CDigest => Lit (digest r)
-  | CPlusplus => Lit [if plusplus r then 1 else 0]
-  | CVersion => Lit (version sp)
-  | CFmtVersion => Lit (fmt_version sp)
-  | CLang => Lit (tag_of sp (lang r))
-  | CArgs m => Lit (concat (map (put m) (args r)))
-  | CExtra => Lit (concat (extra r))
-  | CEnv inner => Lit (concat (map (env_item inner) (fenv al r)))
-  | CPP => Lit (pp r)
-  | CPath => Lit (path r)
-  | CInputDigest => Dig (input r)
+  | CDigest => [Lit (digest r)]
+  | CPlusplus => [Lit [if plusplus r then 1 else 0]]
+  | CVersion => [Lit (version sp)]
+  | CFmtVersion => [Lit (fmt_version sp)]
+  | CLang => [Lit (tag_of sp (lang r))]
+  | CArgs m => [Lit (concat (map (put m) (args r)))]
+  | CExtra => [Lit (concat (extra r))]
+  | CEnv inner => [Lit (concat (map (env_item inner) (fenv al r)))]
+  | CPP => [Lit (pp r)]
+  | CPath => [Lit (path r)]
+  | CInputDigest => [Dig (input r)]
+  | CInputDigestT => input_digest_pieces r
   end.
 
 Definition pieces_c (sp : spec) (r : creq) : list piece :=
-  map (comp_piece sp (allow_main sp) r) (shape_c sp).
+  flat_map (comp_pieces sp (allow_main sp) r) (shape_c sp).
 
 Definition pieces_p (sp : spec) (r : creq) : list piece :=
-  map (comp_piece sp (allow_pp sp) r) (shape_p sp).
+  flat_map (comp_pieces sp (allow_pp sp) r) (shape_p sp).
 
 (* preprocessor_cache_entry_hash_key returns Ok(None) when !ignore_time_macros and the finder saw __TIME__
    (for an input read in one chunk, i.e. < 128 KiB, "saw" = "contains"; chunking is C04's subject) *)
@@ -202,8 +241,16 @@ End Hash.
 Definition canon_c (sp : spec) (r : creq) :=
   (digest r, plusplus r, tag_of sp (lang r), args r, extra r, fenv (allow_main sp) r, pp r).
 
+(* what the key sees of date / SOURCE_DATE_EPOCH / mtime: nothing unless the file mentions the macro (and time
+   macros are not ignored); an unset SOURCE_DATE_EPOCH and an empty one are not told apart *)
+Definition salt_view (r : creq) : option (option (N * N * N * bytes) * option (N * N)) :=
+  if salted r
+  then Some (if has_date r then Some (date r, sde_bytes r) else None,
+             if has_stamp r then Some (mtime r) else None)
+  else None.
+
 Definition canon_p (sp : spec) (r : creq) :=
-  (digest r, plusplus r, tag_of sp (lang r), args r, extra r, fenv (allow_pp sp) r, path r, input r).
+  (digest r, plusplus r, tag_of sp (lang r), args r, extra r, fenv (allow_pp sp) r, path r, input r, salt_view r).
 
 (* ------------------------------------------------------------------ decidable side conditions on a spec *)
 
@@ -240,6 +287,18 @@ Definition allow_ok (sp : spec) : bool :=
 Definition env_covers (sp : spec) : bool :=
   forallb (allowed (allow_pp sp)) (allow_main sp).
 
+(* The variables the property counts as result-affecting at the pinned commit.  An allow-list may grow; dropping one
+   of these from it breaks [required_ok] (and the monitors, which use the union). *)
+Definition required_main : list bytes :=
+  [ bs "SCCACHE_C_CUSTOM_CACHE_BUSTER"; bs "MACOSX_DEPLOYMENT_TARGET"; bs "IPHONEOS_DEPLOYMENT_TARGET";
+    bs "TVOS_DEPLOYMENT_TARGET"; bs "WATCHOS_DEPLOYMENT_TARGET"; bs "SDKROOT"; bs "CCC_OVERRIDE_OPTIONS" ].
+Definition required_pp : list bytes :=
+  required_main ++ [ bs "CPATH"; bs "C_INCLUDE_PATH"; bs "CPLUS_INCLUDE_PATH"; bs "OBJC_INCLUDE_PATH";
+                     bs "OBJCPLUS_INCLUDE_PATH" ].
+
+Definition required_ok (sp : spec) : bool :=
+  forallb (allowed (allow_main sp)) required_main && forallb (allowed (allow_pp sp)) required_pp.
+
 Definition spec_good (sp : spec) : Prop :=
   shape_c sp = expected_shape_c /\ shape_p sp = expected_shape_p /\ tags_ok sp = true /\ allow_ok sp = true.
 
@@ -269,10 +328,109 @@ Definition wf_c (sp : spec) (r : creq) : bool :=
 Definition nohex64 (t : bytes) : bool := negb (is_hex64 (firstn 64 t)).
 
 Definition abs_path (p : bytes) : bool :=
-  match p with 47 :: _ => true | _ => false end.
+  match p with c :: _ => N.eqb c 47 | [] => false end.
+
+(* for the input path (which is followed by a digest, not by the end of the pre-image) the path must not even be a
+   proper prefix of such an extension *)
+Definition no_tag_ext_path (sp : spec) (l : bytes) (p : bytes) : bool :=
+  forallb (fun e => match strip_prefix (tag_of sp l) (snd e) with
+                    | Some (x :: s) => negb (prefixb (x :: s) p) && negb (prefixb p (x :: s))
+                    | _ => true
+                    end) (tags sp).
+
+(* the path does not end in 64 hex digits and "-" (it is followed by  digest  or  digest "-" digest, undelimited) *)
+Definition path_tail_ok (p : bytes) : bool :=
+  match rev p with
+  | 45 :: t => negb (is_hex64 (rev (firstn 64 t)))
+  | _ => true
+  end.
 
 Definition path_ok (sp : spec) (r : creq) : bool :=
-  abs_path (path r) && nonul (path r) && no_tag_ext sp (lang r) (path r).
+  abs_path (path r) && nonul (path r) && no_tag_ext_path sp (lang r) (path r) && path_tail_ok (path r).
+
+(* year, month, day and nanoseconds fit 32 bits, seconds 64 bits (pre-epoch mtimes are not modelled) *)
+Definition time_ok (r : creq) : bool :=
+  (fst (fst (date r)) <? 4294967296) && (snd (fst (date r)) <? 4294967296) && (snd (date r) <? 4294967296)
+  && (fst (mtime r) <? 18446744073709551616) && (snd (mtime r) <? 4294967296).
 
 Definition wf_p (sp : spec) (r : creq) : bool :=
-  common_ok sp r && env_ok (allow_pp sp) r && path_ok sp r.
+  common_ok sp r && env_ok (allow_pp sp) r && path_ok sp r && time_ok r.
+
+(* the extra-hash / preprocessor-output boundary is unambiguous for a pair of requests *)
+Definition extra_pp_ok (r1 r2 : creq) : bool :=
+  Nat.eqb (length (extra r1)) (length (extra r2)) || (nohex64 (pp r1) && nohex64 (pp r2)).
+
+(* ------------------------------------------------------------------ record updates, pair families *)
+
+Definition set_digest (r : creq) (x : bytes) : creq :=
+  {| digest := x; plusplus := plusplus r; lang := lang r; args := args r; extra := extra r; env := env r;
+     pp := pp r; path := path r; input := input r; ignore_time := ignore_time r;
+     date := date r; sde := sde r; mtime := mtime r |}.
+Definition set_plusplus (r : creq) (x : bool) : creq :=
+  {| digest := digest r; plusplus := x; lang := lang r; args := args r; extra := extra r; env := env r;
+     pp := pp r; path := path r; input := input r; ignore_time := ignore_time r;
+     date := date r; sde := sde r; mtime := mtime r |}.
+Definition set_lang (r : creq) (x : bytes) : creq :=
+  {| digest := digest r; plusplus := plusplus r; lang := x; args := args r; extra := extra r; env := env r;
+     pp := pp r; path := path r; input := input r; ignore_time := ignore_time r;
+     date := date r; sde := sde r; mtime := mtime r |}.
+Definition set_args (r : creq) (x : list bytes) : creq :=
+  {| digest := digest r; plusplus := plusplus r; lang := lang r; args := x; extra := extra r; env := env r;
+     pp := pp r; path := path r; input := input r; ignore_time := ignore_time r;
+     date := date r; sde := sde r; mtime := mtime r |}.
+Definition set_extra (r : creq) (x : list bytes) : creq :=
+  {| digest := digest r; plusplus := plusplus r; lang := lang r; args := args r; extra := x; env := env r;
+     pp := pp r; path := path r; input := input r; ignore_time := ignore_time r;
+     date := date r; sde := sde r; mtime := mtime r |}.
+Definition set_env (r : creq) (x : list (bytes * bytes)) : creq :=
+  {| digest := digest r; plusplus := plusplus r; lang := lang r; args := args r; extra := extra r; env := x;
+     pp := pp r; path := path r; input := input r; ignore_time := ignore_time r;
+     date := date r; sde := sde r; mtime := mtime r |}.
+Definition set_pp (r : creq) (x : bytes) : creq :=
+  {| digest := digest r; plusplus := plusplus r; lang := lang r; args := args r; extra := extra r; env := env r;
+     pp := x; path := path r; input := input r; ignore_time := ignore_time r;
+     date := date r; sde := sde r; mtime := mtime r |}.
+Definition set_path (r : creq) (x : bytes) : creq :=
+  {| digest := digest r; plusplus := plusplus r; lang := lang r; args := args r; extra := extra r; env := env r;
+     pp := pp r; path := x; input := input r; ignore_time := ignore_time r;
+     date := date r; sde := sde r; mtime := mtime r |}.
+Definition set_input (r : creq) (x : bytes) : creq :=
+  {| digest := digest r; plusplus := plusplus r; lang := lang r; args := args r; extra := extra r; env := env r;
+     pp := pp r; path := path r; input := x; ignore_time := ignore_time r;
+     date := date r; sde := sde r; mtime := mtime r |}.
+
+Definition set_times (r : creq) (d : N * N * N) (s : option bytes) (m : N * N) : creq :=
+  {| digest := digest r; plusplus := plusplus r; lang := lang r; args := args r; extra := extra r; env := env r;
+     pp := pp r; path := path r; input := input r; ignore_time := ignore_time r;
+     date := d; sde := s; mtime := m |}.
+
+(* exactly one of the seven hashed components of the result key differs *)
+Definition one_differs_c (sp : spec) (r1 r2 : creq) : Prop :=
+  let d := digest r1 = digest r2 in
+  let p := plusplus r1 = plusplus r2 in
+  let t := tag_of sp (lang r1) = tag_of sp (lang r2) in
+  let a := args r1 = args r2 in
+  let x := extra r1 = extra r2 in
+  let e := fenv (allow_main sp) r1 = fenv (allow_main sp) r2 in
+  let q := pp r1 = pp r2 in
+  (~ d /\ p /\ t /\ a /\ x /\ e /\ q) \/ (d /\ ~ p /\ t /\ a /\ x /\ e /\ q) \/
+  (d /\ p /\ ~ t /\ a /\ x /\ e /\ q) \/ (d /\ p /\ t /\ ~ a /\ x /\ e /\ q) \/
+  (d /\ p /\ t /\ a /\ ~ x /\ e /\ q) \/ (d /\ p /\ t /\ a /\ x /\ ~ e /\ q) \/
+  (d /\ p /\ t /\ a /\ x /\ e /\ ~ q).
+
+(* exactly one of the nine hashed components of the preprocessor-level key differs *)
+Definition one_differs_p (sp : spec) (r1 r2 : creq) : Prop :=
+  let d := digest r1 = digest r2 in
+  let p := plusplus r1 = plusplus r2 in
+  let t := tag_of sp (lang r1) = tag_of sp (lang r2) in
+  let a := args r1 = args r2 in
+  let x := extra r1 = extra r2 in
+  let e := fenv (allow_pp sp) r1 = fenv (allow_pp sp) r2 in
+  let q := path r1 = path r2 in
+  let i := input r1 = input r2 in
+  let s := salt_view r1 = salt_view r2 in
+  (~ d /\ p /\ t /\ a /\ x /\ e /\ q /\ i /\ s) \/ (d /\ ~ p /\ t /\ a /\ x /\ e /\ q /\ i /\ s) \/
+  (d /\ p /\ ~ t /\ a /\ x /\ e /\ q /\ i /\ s) \/ (d /\ p /\ t /\ ~ a /\ x /\ e /\ q /\ i /\ s) \/
+  (d /\ p /\ t /\ a /\ ~ x /\ e /\ q /\ i /\ s) \/ (d /\ p /\ t /\ a /\ x /\ ~ e /\ q /\ i /\ s) \/
+  (d /\ p /\ t /\ a /\ x /\ e /\ ~ q /\ i /\ s) \/ (d /\ p /\ t /\ a /\ x /\ e /\ q /\ ~ i /\ s) \/
+  (d /\ p /\ t /\ a /\ x /\ e /\ q /\ i /\ ~ s).
